@@ -37,6 +37,10 @@ func StagedScenarios() []StagedScenario {
 		{Name: "p1", Class: "default", Objects: []*unstructured.Unstructured{ConfigMap("cm1", "x"), Widget("w1", 1)}},
 		{Name: "p2", Objects: []*unstructured.Unstructured{Widget("w2", 1)}},
 	}
+	deleg2 := []PhaseSpec{
+		{Name: "p1", Class: "default", Objects: []*unstructured.Unstructured{ConfigMap("cm1", "y"), Widget("w1", 2)}},
+		{Name: "p2", Objects: []*unstructured.Unstructured{Widget("w2", 1)}},
+	}
 	return []StagedScenario{
 		{Name: "c10-rollout", Stages: []func(*World){mk("a1", two)}},
 		{Name: "c10-handover", Stages: []func(*World){mk("a1", two), mk("a2", h2, "a1"),
@@ -48,6 +52,10 @@ func StagedScenarios() []StagedScenario {
 			func(w *World) { w.EnvDelete(Key{"", "ConfigMap", NS, "cm2"}, false) }}},
 		{Name: "c10-teardown", Stages: []func(*World){mk("a1", two), func(w *World) { w.EnvDelete(KOS("a1"), false) }}},
 		{Name: "c10-archive", Stages: []func(*World){mk("a1", two), func(w *World) { w.EnvSetLifecycle(KOS("a1"), "Archived") }}},
+		// a revision with a delegated phase is replaced: adoption goes through the phase object recorded in status.remotePhases
+		{Name: "c10-delegated-handover", Stages: []func(*World){mk("a1", deleg), mk("a2", deleg2, "a1"),
+			func(w *World) { w.EnvSetLifecycle(KOS("a1"), "Paused") },
+			func(w *World) { w.EnvSetLifecycle(KOS("a1"), "Archived") }}},
 		{Name: "c10-delegated", Stages: []func(*World){mk("a1", deleg), func(w *World) { w.EnvDelete(KOS("a1"), false) }}},
 		{Name: "c10-sliced", Stages: []func(*World){func(w *World) {
 			sc, _ := ScenarioByName("sliced")
@@ -97,6 +105,17 @@ func (sr *stagedRunner) drift(kind string) {
 	}
 	k := existing[sr.rng.Intn(len(existing))]
 	switch kind {
+	case "drift-phase":
+		// somebody deletes an ObjectSetPhase object: the ObjectSet re-creates it, its controller re-creates the objects
+		var phases []Key
+		for _, pk := range w.Store.Keys() {
+			if pk.Kind == "ObjectSetPhase" && w.Store.Snapshot(pk) != nil {
+				phases = append(phases, pk)
+			}
+		}
+		if len(phases) > 0 {
+			w.EnvDelete(phases[sr.rng.Intn(len(phases))], false)
+		}
 	case "drift-edit":
 		w.EnvEditContent(k, "d")
 	case "drift-delete":
@@ -204,7 +223,7 @@ func init() {
 	extraDrivers["fault-sweep"] = func(w *World, _ *flag.FlagSet, a driverArgs) int {
 		// -n: max number of disturbed runs per scenario (0 = every call index × every kind); -mode pairs: two faults
 		scs := StagedScenarios()
-		kinds := []string{"before", "after", "crash", "drift-edit", "drift-delete", "drift-label", "drift-rev"}
+		kinds := []string{"before", "after", "crash", "drift-edit", "drift-delete", "drift-label", "drift-rev", "drift-phase"}
 		job := 0
 		for _, sc := range scs {
 			ref, calls, ok := RunStaged(w, sc, "reference", nil, 0, nil)
